@@ -837,6 +837,9 @@ def _initialize_aggregation(
     if _is_arg_reduction(agg):
         # this allows us to unravel_index easily. we have to do that nearly every time.
         agg.fill_value["numpy"] = (0,)
+        # indices must stay integers until the end, even if the final dtype
+        # was promoted to hold a floating-point fill_value
+        agg.dtype["numpy"] = (np.dtype(np.intp),)
     else:
         agg.fill_value["numpy"] = (agg.fill_value[func],)
 
